@@ -39,6 +39,8 @@ pub struct Plan {
     pub exhaustive: Option<bool>,
     /// minimal number of evaluations below which the run is inconclusive
     pub min_evaluations: u64,
+    /// single-process extra monitors run by the parent after the shards (sanitizers, Miri, strace)
+    pub extra: Option<fn(&str, u64, &mut Shard)>,
 }
 
 static PANICS: Mutex<Vec<String>> = Mutex::new(Vec::new());
@@ -206,6 +208,9 @@ pub fn run_parent(plan: &Plan, tier: &str) -> i32 {
             None => failed += 1,
         }
         let _ = std::fs::remove_file(&*out);
+    }
+    if let Some(extra) = plan.extra {
+        extra(tier, seed, &mut total);
     }
     cleanup_scratch();
     let wall = t0.elapsed().as_secs_f64();
